@@ -118,6 +118,10 @@ func genC14(seed uint64, tier string, idx int) *Plan {
 				n := 1 + g.r.intn(len(o.missing))
 				for _, no := range o.missing[:n] {
 					send(o.pk[no])
+					if g.r.chance(15) {
+						send(o.pk[no]) // the terminal answers a re-request twice
+						g.p.Faults = append(g.p.Faults, "pkt.dup")
+					}
 				}
 				o.missing = o.missing[n:]
 				a.Ops = append(a.Ops, Op{K: "quiet"})
@@ -190,6 +194,7 @@ func checkC14(r *Result) []Violation {
 		open := map[uint16]*refXfer{} // by message ID
 		delivered := 0
 		completeOK := map[int]bool{} // transfer index -> may complete
+		completeStep := map[int]int{} // transfer index -> step of the delivery that completed it
 		// The model walks the deliveries (every chunk is exactly one frame in C14 plans, read by the server at
 		// the simulated instant it was delivered) and produces, per inbound frame, the group of re-requests that
 		// frame makes due. The reader hands them to the writer through a queue, so they appear on the socket in
@@ -227,6 +232,7 @@ func checkC14(r *Result) []Violation {
 				x.updated = now
 				if len(x.got) == x.total {
 					completeOK[x.xi] = true
+					completeStep[x.xi] = e.Step
 					delete(open, f.ID)
 				}
 			}
@@ -330,6 +336,27 @@ func checkC14(r *Result) []Violation {
 			return vs
 		}
 		// completion: exactly the transfers the model let complete are delivered; expired ones never
+		// a completed message is never reported before the delivery that supplied its last missing packet
+		{
+			idx := map[uint16]int{}
+			for xi, tr := range r.Plan.Expect.Xfers {
+				if tr.Conn != ci || !completeOK[xi+1] {
+					continue
+				}
+				k := idx[tr.ID]
+				idx[tr.ID]++
+				n := 0
+				for _, e := range r.Hist {
+					if e.C == ci && (e.K == KRead || e.K == KNotSup) && e.Who == "eventer" && e.Complete && e.ID == tr.ID {
+						if n == k && e.Step <= completeStep[xi+1] {
+							bad("completed_before_resupply", fmt.Sprintf("conn %d: id=%#04x reported complete at step %d, its last missing packet was only delivered at step %d", ci, tr.ID, e.Step, completeStep[xi+1]), e.Step)
+							return vs
+						}
+						n++
+					}
+				}
+			}
+		}
 		gotComplete := map[uint16]int{}
 		for _, e := range r.Hist {
 			// (a completed message of an ID without handler is reported through OnNotSupportedEvent)
